@@ -32,7 +32,7 @@ for pid in sorted(CLAIMS):
     m["checks"].append({
      "property_id": pid,
      "quick_cmd": f"bin/gverif check {pid} --tier quick",
-     "thorough_cmd": f"bin/gverif check {pid} --tier thorough",
+     "thorough_cmd": f"tools/thorough.sh {pid}",
      "evidence_file": f"/verif/evidence/{pid}.json",
      "replay_cmd_template": "bin/gverif explain {path}",
      "engine": "gverif",
